@@ -1143,7 +1143,13 @@ func genGroup(rng, xrng *rand.Rand, index int, seed uint64, npkts int) *Group {
 	}
 	// packets the strict parser admits, aimed at the heads of the mixed chains
 	// (the wire composer has to serve them for the chains to be judged)
-	for i := 0; i < 2 && len(mixed) > 0; i++ {
+	nmixed := 2
+	if g.Conf.Prefetch > 0 {
+		// (every chase through the decoded entry costs a full quiescence wait
+		// where prefetch workers exist)
+		nmixed = 1
+	}
+	for i := 0; i < nmixed && len(mixed) > 0; i++ {
 		t := mixed[xrng.IntN(len(mixed))]
 		pkt, tags := genPacketShaped(xrng, t, g.Proto, true)
 		g.Pkts = append(g.Pkts, Pkt{Hex: hex.EncodeToString(pkt), Client: clientFor(xrng, npkts+i), Target: t.state, Shape: strings.Join(tags, ",")})
